@@ -347,6 +347,13 @@ def run_property(prop, tier, groups, meta, replay_fn=None, jobs=None):
                 knownhit.append((k, g, o))
             else:
                 viol.append((g, o))
+    # obligations that fail and are listed in known_findings.json are NOT part of what this run claims as proved: they are taken out of the
+    # obligations / discharged pair and listed on their own (coverage.known_finding_obligations)
+    for k, g, o in knownhit:
+        if g.bounded:
+            n_bobl -= 1
+        else:
+            n_obl -= 1
     code = 0
     rep_dir = os.path.join(VERIF, "replays", prop)
     replay_cache = {}
@@ -428,6 +435,7 @@ def run_property(prop, tier, groups, meta, replay_fn=None, jobs=None):
                     "reason": g.result.get("reason")} for g in groups],
         "samples": samples[:12] or [{"note": "no obligation discharged in this run"}],
         "known_findings_hit": sorted(seenk),
+        "known_finding_obligations": [{"finding": k["id"], "group": g.name, "obligation": o["id"], "desc": o["desc"][:200]} for k, g, o in knownhit],
         "undecided_groups": [g.name for g, _ in undec],
         "not_covered": meta.get("not_covered", []),
         "extraction": meta.get("extraction", {}),
